@@ -142,10 +142,11 @@ pub struct RrFlags {
     pub bad_tags: bool,
     pub odd_frames: bool,
     pub departures: bool,
+    pub large: bool,
 }
 
 pub fn gen_script(rng: &mut Rng, flags: RrFlags) -> RrScript {
-    let n_req = if flags.partial { *rng.pick(&[0usize, 0, 1, 1, 2]) } else { *rng.pick(&[1usize, 1, 2, 2, 2, 3, 3, 4]) };
+    let n_req = if flags.partial { *rng.pick(&[0usize, 0, 1, 1, 2]) } else if flags.large { rng.usize(3, 8) } else { *rng.pick(&[1usize, 1, 2, 2, 2, 3, 3, 4]) };
     let n_rep = if flags.partial {
         *rng.pick(&[0usize, 0, 1, 1])
     } else if flags.multi_replier {
@@ -163,7 +164,7 @@ pub fn gen_script(rng: &mut Rng, flags: RrFlags) -> RrScript {
     let mut ended_req = vec![false; n_req];
     let mut ended_rep = vec![false; n_rep];
     let mut gate = gates.clone();
-    let mut budget = rng.usize(0, 30);
+    let mut budget = if flags.large { rng.usize(20, 100) } else { rng.usize(0, 30) };
     // common topology: everything registered up front (replier first or last)
     if rng.chance(3, 5) && !flags.partial {
         let mut regs: Vec<RrStep> = (0..n_req).map(RrStep::RegReq).collect();
@@ -182,7 +183,7 @@ pub fn gen_script(rng: &mut Rng, flags: RrFlags) -> RrScript {
             steps.push(r);
         }
     }
-    let len = rng.usize(3, 60);
+    let len = if flags.large { rng.usize(40, 200) } else { rng.usize(3, 60) };
     for _ in 0..len {
         let mut choices: Vec<(u64, u8)> = vec![];
         if reg_req.iter().any(|r| !r) {
@@ -1190,7 +1191,7 @@ pub struct ReqRepFamily {
     pub flags: RrFlags,
 }
 
-const BASE: RrFlags = RrFlags { fails: false, stream_errs: false, close: false, force_wake: None, partial: false, multi_replier: false, bad_tags: false, odd_frames: false, departures: false };
+const BASE: RrFlags = RrFlags { fails: false, stream_errs: false, close: false, force_wake: None, partial: false, multi_replier: false, bad_tags: false, odd_frames: false, departures: false, large: false };
 
 pub static RR_CLEAN: ReqRepFamily = ReqRepFamily { name: "reqrep-clean", flags: RrFlags { bad_tags: true, ..BASE } };
 pub static RR_WAKE: ReqRepFamily = ReqRepFamily { name: "reqrep-wake", flags: RrFlags { bad_tags: true, stream_errs: true, departures: true, force_wake: Some(true), ..BASE } };
@@ -1208,8 +1209,10 @@ impl Family for ReqRepFamily {
     fn engine(&self) -> &'static str {
         "R"
     }
-    fn generate(&self, _property: &str, _tier: Tier, _index: u64, _total: u64, rng: &mut Rng) -> Value {
-        serde_json::to_value(gen_script(rng, self.flags)).unwrap()
+    fn generate(&self, _property: &str, tier: Tier, _index: u64, _total: u64, rng: &mut Rng) -> Value {
+        let mut flags = self.flags;
+        flags.large = tier == Tier::Thorough && rng.chance(1, 4);
+        serde_json::to_value(gen_script(rng, flags)).unwrap()
     }
     fn execute(&self, property: &str, body: &Value, opts: &ExecOpts) -> Outcome {
         let sc: RrScript = match serde_json::from_value(body.clone()) {
